@@ -25,6 +25,9 @@ use crate::dataplane_path::standard::{
     view::{HopFieldView, InfoFieldView, StandardPathView},
 };
 
+/// Largest value the current hop field index can hold on the wire (6 bits).
+const MAX_CURR_HOP_FIELD_IDX: usize = (1 << 6) - 1;
+
 /// Error type for failures during path advance.
 #[derive(Debug, thiserror::Error)]
 pub enum AdvanceError {
@@ -317,6 +320,11 @@ impl StandardPathView {
             }
             // SEGMENT CHANGE: advance to the next segment
             (false, true) => {
+                // The current hop field index is a 6 bit field, a larger value would silently wrap
+                if curr_hop_idx + 1 > MAX_CURR_HOP_FIELD_IDX {
+                    return Err(AdvanceError::HopOutOfBounds(curr_hop_idx as u8 + 1));
+                }
+
                 let next_hop_field = self
                     .hop_field(curr_hop_idx + 1)
                     .ok_or(AdvanceError::HopOutOfBounds(curr_hop_idx as u8 + 1))?;
@@ -488,6 +496,11 @@ impl StandardPathView {
 
         if is_final_hop {
             // We are at the end of the path, we can't advance further
+            return Err(AdvanceError::HopOutOfBounds(curr_hop_idx as u8 + 1));
+        }
+
+        // The current hop field index is a 6 bit field, a larger value would silently wrap
+        if curr_hop_idx + 1 > MAX_CURR_HOP_FIELD_IDX {
             return Err(AdvanceError::HopOutOfBounds(curr_hop_idx as u8 + 1));
         }
 
